@@ -14,7 +14,7 @@ PYTHONPATH=$WT /venv/bin/python $D/demo.py > $D/demo_clean.log 2>&1; CLEAN=$?
 git apply $D/patch.diff || { echo "patch does not apply"; exit 3; }
 if [ -f $D/c_patch.diff ]; then
   # Cython is not available: the seeded change carries the hand-mirrored change of the generated .c; rebuild the module(s) in the worktree
-  patch -p1 -d $WT < $D/c_patch.diff || { echo "c patch does not apply"; exit 3; }
+  patch -p$(grep -m1 '^+++ ' $D/c_patch.diff | grep -q '^+++ b/' && echo 1 || echo 0) -d $WT < $D/c_patch.diff || { echo "c patch does not apply"; exit 3; }
   for f in $(grep '^+++ ' $D/c_patch.diff | awk '{print $2}' | sed 's#^[ab]/##'); do
     (cd $WT/$(dirname $f) && gcc -shared -fPIC -O3 -fopenmp -w -I/root/.pyenv/versions/3.12.1/include/python3.12 -I$(/venv/bin/python -c "import numpy; print(numpy.get_include())") -I$WT -I. $(/venv/bin/python -c "import CyRK, os; d=os.path.dirname(CyRK.__file__); print(' '.join('-I'+os.path.join(d,x) for x in ('', 'cy', 'array', 'utils')))") $(basename $f) -o $(basename ${f%.c}).cpython-312-x86_64-linux-gnu.so) || { echo "rebuild failed"; exit 3; }
   done
